@@ -18,6 +18,7 @@ import (
 var directedNames = []string{
 	"exact-expiry-revert", "exact-first-of-two", "exact-single", "exact-rewindow-single",
 	"exact-rewindow-first-of-two", "exact-form-and-rewindow-into-shared-list",
+	"exact-form-prove-in-one-block", "exact-form-revise-prove-in-one-block", "exact-form-revise-in-one-block",
 	"f8-proof-first-of-three", "f8-proof-last-of-two", "f8-rewindow-first-of-three",
 	"revise-and-prove-in-one-block", "revise-window-and-prove-in-one-block",
 }
@@ -62,6 +63,18 @@ func buildDirected(r *rng.R, env *chaingen.Env, name string) scenario {
 		xs = []*chaingen.Node{s.Extend(b2, func(b *chaingen.Builder) { b.AddV1ProofOf(pick(0)) })}
 	case "f8-proof-last-of-two":
 		xs = []*chaingen.Node{s.Extend(b2, func(b *chaingen.Builder) { b.AddV1ProofOf(pick(1)) })}
+	case "exact-form-prove-in-one-block", "exact-form-revise-prove-in-one-block", "exact-form-revise-in-one-block":
+		// the reverted block forms a contract and proves / revises it itself (the diff is Created
+		// && Resolved, resp. Created with the revision written in place); other contracts share
+		// the window ends involved
+		kind := map[string]string{"exact-form-prove-in-one-block": "v1-form-prove", "exact-form-revise-prove-in-one-block": "v1-form-revise-prove", "exact-form-revise-in-one-block": "v1-form-revise"}[name]
+		x3 := s.Extend(b2, func(b *chaingen.Builder) {
+			b.AddContractShape(r, kind)
+			b.AddV1Form(r, 5, we)
+			b.AddContractShape(r, kind)
+		})
+		x4 := s.Extend(x3, func(b *chaingen.Builder) { b.AddContractShape(r, kind) })
+		xs = []*chaingen.Node{x3, x4}
 	case "exact-form-and-rewindow-into-shared-list":
 		// append-then-delete: the reverted blocks form a contract into the shared list and move
 		// another contract (first of two) into a list that is shared as well
